@@ -114,12 +114,28 @@ fn build(seed: u64, i: usize) -> Built {
     }
     // included files need not be called `*.circom`: only named inputs and library files do
     let mut odd_ext: BTreeSet<usize> = BTreeSet::new();
+    let mut stem_dir: Option<(usize, usize)> = None;
     for k in 1..n {
         if r.chance(1, 10) && nodes.iter().filter(|x| x.name == nodes[k].name).count() == 1 {
             let ext = r.pick(&["inc", "txt", "circom.bak", "CIRCOM", ""]);
             nodes[k].name = if ext.is_empty() { format!("f{k}") } else { format!("f{k}.{ext}") };
             odd_ext.insert(k);
             shapes.push("included-file-with-another-extension");
+        }
+    }
+    // a directory called like the stem of a file next to it (`f2.circom` beside `f2/`):
+    // byte order and component order of the two paths disagree
+    if n >= 3 && r.chance(1, 8) {
+        let j = 1 + r.usize(n - 1);
+        let k = 1 + r.usize(n - 1);
+        if j != k && nodes[j].name.ends_with(".circom") && !odd_ext.contains(&k) {
+            let stem = nodes[j].name.trim_end_matches(".circom").to_string();
+            let d = if nodes[j].dir.is_empty() { stem } else { format!("{}/{stem}", nodes[j].dir) };
+            if !nodes.iter().any(|x| x.dir == d && x.name == nodes[k].name) {
+                nodes[k].dir = d;
+                stem_dir = Some((j, k));
+                shapes.push("directory-named-like-a-file-stem");
+            }
         }
     }
     // forward edges (j > i): chain / diamond material
@@ -138,6 +154,11 @@ fn build(seed: u64, i: usize) -> Built {
     let mut force_lib = false;
     if n >= 5 && r.chance(1, 8) {
         let (l, y, bnode) = (n - 1, n - 2, n - 3);
+        if let Some((sj, sk)) = stem_dir {
+            if [l, y, bnode].contains(&sj) || [l, y, bnode].contains(&sk) {
+                stem_dir = None;
+            }
+        }
         for k in [l, y, bnode] {
             if odd_ext.remove(&k) {
                 nodes[k].name = format!("f{k}.circom");
@@ -323,6 +344,14 @@ fn build(seed: u64, i: usize) -> Built {
         if let (Some(lf), true) = (lib_file, r.chance(1, 2)) {
             s = format!("{}/{}", r.pick(&["vendor", "lib9", "sub/none"]), nodes[lf].name);
             shapes.push("unresolvable-include:directory-before-library-file-name");
+        } else if r.chance(1, 4) {
+            // the bare name of a file that lives next to some other file of the graph, but
+            // not next to this one (and, unless the reference resolver says otherwise, in no library)
+            let others: Vec<usize> = (0..n).filter(|&j| nodes[j].dir != nodes[k].dir && !nodes.iter().any(|x| x.dir == nodes[k].dir && x.name == nodes[j].name)).collect();
+            if !others.is_empty() {
+                s = nodes[*r.pick(&others)].name.clone();
+                shapes.push("unresolvable-include:bare-name-of-a-file-elsewhere");
+            }
         } else if !given_lib_dirs.is_empty() && r.chance(1, 3) {
             let d = *r.pick(&given_lib_dirs);
             let in_lib: Vec<usize> = (0..n).filter(|&j| nodes[j].dir == d).collect();
@@ -407,6 +436,13 @@ fn build(seed: u64, i: usize) -> Built {
         for k in 1..n {
             if r.chance(1, 4) && !odd_ext.contains(&k) {
                 argv_inputs.push(nodes[k].path());
+            }
+        }
+        if let Some((sj, sk)) = stem_dir {
+            for k in [sj, sk] {
+                if !argv_inputs.contains(&nodes[k].path()) {
+                    argv_inputs.push(nodes[k].path());
+                }
             }
         }
         if let Some((ka, kb, _)) = &twin_bad {
@@ -583,7 +619,7 @@ fn consumption_counts(o: &Outcome, root: &Path) -> (BTreeMap<PathBuf, usize>, Ve
     (counts, raw_paths)
 }
 
-fn judge(runner: &Runner, b: &Built, o: &Outcome) -> Option<(String, String)> {
+fn judge(runner: &Runner, b: &Built, o: &Outcome, full: bool) -> Option<(String, String)> {
     let root = runner.root.clone();
     // include spellings per canonical file
     let mut include_map: BTreeMap<PathBuf, Vec<String>> = BTreeMap::new();
@@ -603,7 +639,7 @@ fn judge(runner: &Runner, b: &Built, o: &Outcome) -> Option<(String, String)> {
     let out = parse_stdout(&o.stdout);
     // (b) each reachable file consumed exactly once, nothing else read
     let (counts, _) = consumption_counts(o, &root);
-    for f in &rr.reachable {
+    for f in rr.reachable.iter().filter(|_| full) {
         let c = counts.get(f).copied().unwrap_or(0);
         if c != 1 {
             let rel = f.strip_prefix(&root).unwrap_or(f).display().to_string();
@@ -611,7 +647,7 @@ fn judge(runner: &Runner, b: &Built, o: &Outcome) -> Option<(String, String)> {
             return Some((format!("{how}"), format!("`{rel}` is reachable through includes and was read {c} time(s); shapes {:?}", b.shapes)));
         }
     }
-    for (f, c) in &counts {
+    for (f, c) in counts.iter().filter(|_| full) {
         if !rr.reachable.contains(f) && (f.extension().map(|x| x == "circom").unwrap_or(false) || node_of.contains_key(f)) && *c > 0 {
             let rel = f.strip_prefix(&root).unwrap_or(f).display().to_string();
             return Some(("read-unreachable-file".into(), format!("`{rel}` is not reachable from the named files but was read")));
@@ -655,7 +691,7 @@ fn judge(runner: &Runner, b: &Built, o: &Outcome) -> Option<(String, String)> {
         }
     }
     // (e) unresolvable include of a named file: an error at the include statement
-    for (f, spelling) in &rr.unresolved {
+    for (f, spelling) in rr.unresolved.iter().filter(|_| full) {
         if !rr.named.contains(f) {
             continue;
         }
@@ -749,7 +785,7 @@ fn one(runner: &Runner, seed: u64, i: usize) -> Res {
     let (counts, _) = consumption_counts(&o, &runner.root);
     res.files_reachable = counts.len();
     res.reads_checked = counts.values().sum();
-    if let Some((sig, detail)) = judge(runner, &b, &o) {
+    if let Some((sig, detail)) = judge(runner, &b, &o, true) {
         res.violation = Some((sig, detail, json!({"kind": "C19", "seed": seed, "index": i, "case": b.case})));
         return res;
     }
@@ -803,7 +839,7 @@ fn one(runner: &Runner, seed: u64, i: usize) -> Res {
             if crashed(&o2) {
                 res.crashed += 1;
             } else if damaged.is_none() {
-                if let Some((sig, detail)) = judge(runner, &b, &o2) {
+                if let Some((sig, detail)) = judge(runner, &b, &o2, true) {
                     res.violation = Some((sig, detail, json!({"kind": "C19", "seed": seed, "index": i, "case": c})));
                     return res;
                 }
@@ -839,6 +875,11 @@ fn one(runner: &Runner, seed: u64, i: usize) -> Res {
                         }
                     }
                     res.syntactic_damage_judged += 1;
+                    // and the named files are analysed and reported on as before
+                    if let Some((sig, detail)) = judge(runner, &b, &o2, false) {
+                        res.violation = Some((format!("{sig}:damaged-include"), format!("`{}` is only included and does not parse; {detail}", damaged.clone().unwrap_or_default()), json!({"kind": "C19", "seed": seed, "index": i, "case": c, "damaged": damaged})));
+                        return res;
+                    }
                 }
                 if let Some((p, n)) = attempts.iter().find(|(_, n)| **n > 1) {
                     let rel = p.strip_prefix(&runner.root).unwrap_or(p).display().to_string();
@@ -938,7 +979,7 @@ pub fn run(env: &Env) -> i32 {
     {
         let all = ["cycle", "self-include", "diamond", "double-spelling", "symlinked-file", "symlinked-dir", "library-dir", "second-library-dir", "library-file", "via-library-dir", "via-library-file",
                    "library-file-shadowed-by-local-file", "same-name-in-two-directories", "local-candidate-fails-with-other-errno", "unresolvable-include", "unsupported-pragma-in-the-graph", "directory-input",
-                   "included-file-with-another-extension", "unresolvable-include:directory-before-library-file-name", "unresolvable-include:dot-spelling-of-library-name", "unresolvable-include:same-spelling-in-two-files"];
+                   "included-file-with-another-extension", "unresolvable-include:directory-before-library-file-name", "unresolvable-include:dot-spelling-of-library-name", "unresolvable-include:same-spelling-in-two-files", "unresolvable-include:bare-name-of-a-file-elsewhere", "directory-named-like-a-file-stem"];
         let mut probes: Vec<(&str, usize)> = all.iter().map(|k| (*k, shapes.get(k).copied().unwrap_or(0))).collect();
         probes.push(("damaged or unreadable include", results.iter().map(|r| r.faults_fired).sum::<usize>()));
         probes.push(("included-only file that does not parse, judged", results.iter().map(|r| r.syntactic_damage_judged).sum::<usize>()));
@@ -983,7 +1024,7 @@ pub fn replay(env: &Env, v: &Value) -> i32 {
     let o = runner.run(&case).unwrap_or_else(|e| harness_error(&e));
     println!("argv: {:?}\n{}", case.argv, o.stdout);
     if v.get("damaged").map(|d| d.is_null()).unwrap_or(true) && v.get("inline_twin").is_none() {
-        if let Some((sig, detail)) = judge(&runner, &b, &o) {
+        if let Some((sig, detail)) = judge(&runner, &b, &o, true) {
             println!("{sig}: {detail}");
             println!("VIOLATION property=C19 replay=(replayed)");
             return 1;
@@ -1013,7 +1054,7 @@ pub fn debug_case(env: &Env, i: usize, times: usize) {
     for t in 0..times {
         let runner = Runner::new(&env.bin, &env.shim, &env.scratch, t % 16);
         let o = runner.run(&b.case).unwrap();
-        let v = judge(&runner, &b, &o);
+        let v = judge(&runner, &b, &o, true);
         println!("run {t}: exit {:?} verdict {:?}", o.exit, v.map(|x| x.0));
         if t == 0 {
             println!("{}", o.stdout.lines().filter(|l| l.starts_with("circomspect") || l.starts_with("error")).collect::<Vec<_>>().join("\n"));
